@@ -635,6 +635,7 @@ func checkC01(w *World, r *Report) {
 		}
 		return false
 	})
+	applyArgsRule(w, r, e, "C01.apply-args")
 	r.rule("C01.no-mutation", "evaluation never writes into a form or into a value it was given: the evaluator, the binder and the builtins write only into storage allocated in the same activation, and storage handed to a call inside a loop is not written again on the next iteration (a literal evaluated twice, or the rest list of an earlier call, would otherwise change; shared with C02.write)")
 	nmu := ruleContainerWrites(w, r, e, "C01.no-mutation", func(fn *ssa.Function) bool { return runtimePkg(fnPkgPath(fn)) }, false)
 	r.floor("C01.no-mutation", "container write sites in the library", nmu, 40)
@@ -702,7 +703,7 @@ func ruleLookupOrder(w *World, r *Report, e *Engine) {
 	r.floor("C01.lookup-order", "ascents to the outer scope", n, 2)
 	// looking a name up changes no scope
 	r.rule("C01.lookup-pure", "looking a name up (Get, GetNT, Find, FindNT and whatever they call in package env) writes no scope: no store to a field of an Env and no write into a scope's table, so a binding found through an enclosing scope is found there again, with its current value, on the next lookup (a copy kept in the inner scope would shadow a later def)")
-	np := 0
+	np, nlk := 0, 0
 	seen := map[*ssa.Function]bool{}
 	var work []*ssa.Function
 	for _, name := range []string{"(*Env).Get", "(*Env).GetNT", "(*Env).Find", "(*Env).FindNT"} {
@@ -742,6 +743,14 @@ func ruleLookupOrder(w *World, r *Report, e *Engine) {
 							}
 						}
 					}
+				case *ssa.Lookup:
+					// presence, not the value, decides whether a scope binds the name (nil is a value)
+					if ld, ok := x.X.(*ssa.UnOp); ok {
+						if fa, ok := ld.X.(*ssa.FieldAddr); ok && isEnvPtr(fa.X.Type()) {
+							nlk++
+							r.check(x.CommaOk, "C01.lookup-order", fn, "lookup of a name in a scope's table", x.Pos(), "comma-ok: presence decides", "a scope's table is indexed without testing presence: a name bound to nil in an enclosing scope counts as unbound there, so the search goes on to an outer binding (or ends in 'not found') although the innermost binding wins")
+						}
+					}
 				case *ssa.MapUpdate:
 					if ld, ok := x.Map.(*ssa.UnOp); ok {
 						if fa, ok := ld.X.(*ssa.FieldAddr); ok && isEnvPtr(fa.X.Type()) {
@@ -762,6 +771,7 @@ func ruleLookupOrder(w *World, r *Report, e *Engine) {
 	}
 	r.add("C01.lookup-pure", nil, "functions reachable from the lookup entry points in package env", token.NoPos, "ok", fmt.Sprintf("%d functions examined, %d writes found", len(seen), np))
 	r.floor("C01.lookup-pure", "functions reachable from the lookup entry points", len(seen), 4)
+	r.floor("C01.lookup-order", "lookups of a name in a scope's table", nlk, 2)
 }
 
 // ruleOrder: evaluation loops of eval_ast
